@@ -451,3 +451,263 @@ Proof.
   - exact (wf_writes_open steps ev HW).
   - apply safe_of_bool. exact H.
 Qed.
+
+(* ------------------------------------------------------------------ [3b] schedules of a conflict-free plan *)
+Lemma act_of_In : forall steps i a, act_of steps i = Some a -> In (i, a) steps.
+Proof.
+  induction steps as [|[k v] t IH]; intros i a H; cbn in H; [discriminate|].
+  destruct (Nat.eqb k i) eqn:E.
+  - apply Nat.eqb_eq in E. injection H as <-. subst. left. reflexivity.
+  - right. apply IH. exact H.
+Qed.
+
+Lemma act_of_In_fst : forall steps i a, act_of steps i = Some a -> In i (map fst steps).
+Proof. intros steps i a H. apply act_of_In in H. apply (in_map fst) in H. exact H. Qed.
+
+Lemma In_act_of : forall steps i a, NoDup (map fst steps) -> In (i, a) steps -> act_of steps i = Some a.
+Proof.
+  induction steps as [|[k v] t IH]; intros i a ND H; [destruct H|]. cbn in *.
+  apply NoDup_cons_iff in ND. destruct ND as [N1 N2]. destruct H as [H|H].
+  - injection H as -> ->. rewrite Nat.eqb_refl. reflexivity.
+  - destruct (Nat.eqb k i) eqn:E.
+    + apply Nat.eqb_eq in E. subst. exfalso. apply N1. apply (in_map fst) in H. exact H.
+    + apply IH; assumption.
+Qed.
+
+Lemma In_write_steps : forall steps ev i a,
+  In (i, a) (write_steps steps ev) <-> In (Write i) ev /\ act_of steps i = Some a.
+Proof.
+  intros steps ev i a. unfold write_steps. rewrite in_flat_map. split.
+  - intros [e [He Hx]]. destruct e as [k|k]; [destruct Hx|].
+    destruct (act_of steps k) as [a'|] eqn:A; [|destruct Hx]. destruct Hx as [Hx|[]].
+    injection Hx as <- <-. auto.
+  - intros [H A]. exists (Write i). split; [exact H|]. rewrite A. left. reflexivity.
+Qed.
+
+Lemma write_steps_nodup : forall steps ev, NoDup ev -> NoDup (map fst (write_steps steps ev)).
+Proof.
+  intros steps. induction ev as [|[k|k] r IH]; intros ND; [constructor| |];
+    apply NoDup_cons_iff in ND; destruct ND as [N1 N2].
+  - rewrite write_steps_read. apply IH. exact N2.
+  - rewrite write_steps_write. destruct (act_of steps k) as [a|] eqn:A; cbn [app map fst]; [|apply IH; exact N2].
+    constructor; [|apply IH; exact N2].
+    intros X. apply in_map_iff in X. destruct X as [[k' a'] [E X]]. cbn in E. subst k'.
+    apply In_write_steps in X. apply N1. apply X.
+Qed.
+
+Lemma write_steps_perm : forall steps ev,
+  NoDup (map fst steps) -> wf_interleaving steps ev -> Permutation (write_steps steps ev) steps.
+Proof.
+  intros steps ev NDs (ND & _ & HW & _). apply NoDup_Permutation.
+  - apply (NoDup_map_inv fst). apply write_steps_nodup. exact ND.
+  - apply (NoDup_map_inv fst). exact NDs.
+  - intros [i a]. rewrite In_write_steps. split.
+    + intros [_ A]. apply act_of_In. exact A.
+    + intros H. split; [|apply In_act_of; assumption]. apply HW. apply (in_map fst) in H. exact H.
+Qed.
+
+(* steps whose intervals overlap in a schedule are not ordered by `before` *)
+Lemma open_unordered : forall before steps ev, wf_interleaving steps ev -> scheduled before steps ev ->
+  forall i j, In i (map fst steps) -> In j (map fst steps) -> open_at ev i j ->
+  before i j = false /\ before j i = false.
+Proof.
+  intros before steps ev (ND & HR & HW & HP) HS i j Hi Hj (e1 & e2 & e3 & E & N). split.
+  - destruct (before i j) eqn:B; [exfalso | reflexivity].
+    assert (HRj : In (Read j) (e1 ++ Read i :: e2)).
+    { apply (HP (e1 ++ Read i :: e2) j e3). rewrite E, <- app_assoc. reflexivity. }
+    apply in_split in HRj. destruct HRj as (g1 & g2 & G).
+    assert (HWi : In (Write i) g1).
+    { apply (HS i j g1 (g2 ++ Write j :: e3) B Hi).
+      transitivity ((e1 ++ Read i :: e2) ++ Write j :: e3); [rewrite E, <- app_assoc; reflexivity|].
+      rewrite G, <- app_assoc. reflexivity. }
+    assert (HWi' : In (Write i) e1).
+    { assert (X : In (Write i) (e1 ++ Read i :: e2)) by (rewrite G; apply in_or_app; left; exact HWi).
+      apply in_app_or in X. destruct X as [X|[X|X]]; [exact X | discriminate X | contradiction]. }
+    apply in_split in HWi'. destruct HWi' as (h1 & h2 & Hh).
+    assert (HRi : In (Read i) h1).
+    { apply (HP h1 i (h2 ++ Read i :: e2 ++ Write j :: e3)). rewrite E, Hh, <- app_assoc. reflexivity. }
+    rewrite E, Hh in ND.
+    apply (NoDup_app_disjoint _ _ _ (Read i) ND); [apply in_or_app; left; exact HRi | left; reflexivity].
+  - destruct (before j i) eqn:B; [exfalso | reflexivity].
+    assert (HWj : In (Write j) e1) by (apply (HS j i e1 (e2 ++ Write j :: e3) B Hj E)).
+    rewrite E in ND. apply (NoDup_app_disjoint _ _ _ (Write j) ND HWj). right. apply in_or_app. right. left. reflexivity.
+Qed.
+
+(* the Write order of a schedule is a linearisation of `before` *)
+Lemma write_steps_respects : forall before steps ev, wf_interleaving steps ev -> scheduled before steps ev ->
+  forall suf pre, ev = pre ++ suf -> respects before (write_steps steps suf).
+Proof.
+  intros before steps ev (ND & HR & HW & HP) HS. induction suf as [|[k|k] r IH]; intros pre E.
+  - exact I.
+  - rewrite write_steps_read. apply (IH (pre ++ [Read k])). rewrite <- app_assoc. exact E.
+  - rewrite write_steps_write.
+    assert (IH' : respects before (write_steps steps r)) by (apply (IH (pre ++ [Write k])); rewrite <- app_assoc; exact E).
+    destruct (act_of steps k) as [a|] eqn:A; cbn [app]; [|exact IH'].
+    cbn [respects]. split; [|exact IH'].
+    intros [k' a'] Hy. cbn [fst]. destruct (before k' k) eqn:B; [exfalso | reflexivity].
+    apply In_write_steps in Hy. destruct Hy as [Hy A'].
+    assert (HRk : In (Read k) pre) by (apply (HP pre k r E)).
+    apply in_split in HRk. destruct HRk as (g1 & g2 & G).
+    assert (HWk' : In (Write k') g1).
+    { apply (HS k' k g1 (g2 ++ Write k :: r) B (act_of_In_fst steps k' a' A')). rewrite E, G, <- app_assoc. reflexivity. }
+    rewrite E, G, <- app_assoc in ND.
+    apply (NoDup_app_disjoint _ _ _ (Write k') ND HWk'). cbn. right. apply in_or_app. right. right. exact Hy.
+Qed.
+
+(* [3c] conflict free (every two dependent steps ordered by `before`) => every schedule that starts a step only after
+   its predecessors have finished computes the result of ANY linearisation of `before` *)
+Lemma conflict_free_schedules_l : forall n before steps s ev lin,
+  NoDup (map fst steps) -> dependent_ordered before steps ->
+  wf_interleaving steps ev -> scheduled before steps ev ->
+  Permutation steps lin -> respects before lin ->
+  outcome_eq (mrun n steps s [] ev) (exec n s (map snd lin)).
+Proof.
+  intros n before steps s ev lin NDs HD HW HS HP HR.
+  rewrite (interleaving_sequential_l n steps s ev HW).
+  - pose proof (write_steps_perm steps ev NDs HW) as PW.
+    apply (linearisations_agree_l n before).
+    + destruct HW as (ND & _). apply write_steps_nodup. exact ND.
+    + eapply Permutation_trans; [exact PW | exact HP].
+    + apply (write_steps_respects before steps ev HW HS ev []). reflexivity.
+    + exact HR.
+    + intros x y Hx Hy. apply HD; [exact (Permutation_in x PW Hx) | exact (Permutation_in y PW Hy)].
+  - intros i j Hij Ho. unfold indep_ids.
+    destruct (act_of steps i) as [a|] eqn:Ai; [|reflexivity]. destruct (act_of steps j) as [b|] eqn:Aj; [|reflexivity].
+    destruct (independent a b) eqn:I; [reflexivity | exfalso].
+    assert (U : before i j = false /\ before j i = false).
+    { destruct Ho as [Ho|Ho].
+      - apply (open_unordered before steps ev HW HS i j (act_of_In_fst _ _ _ Ai) (act_of_In_fst _ _ _ Aj) Ho).
+      - apply and_comm. apply (open_unordered before steps ev HW HS j i (act_of_In_fst _ _ _ Aj) (act_of_In_fst _ _ _ Ai) Ho). }
+    destruct U as [U1 U2].
+    destruct (HD (i, a) (j, b) (act_of_In _ _ _ Ai) (act_of_In _ _ _ Aj) Hij I) as [B|B]; cbn in B; congruence.
+Qed.
+
+(* ------------------------------------------------------------------ executable premises are sound *)
+Lemma mevent_eqb_eq : forall a b, mevent_eqb a b = true <-> a = b.
+Proof.
+  intros [i|i] [j|j]; cbn; split; intros H; try discriminate;
+    try (apply Nat.eqb_eq in H; subst; reflexivity); injection H as ->; apply Nat.eqb_refl.
+Qed.
+
+Lemma memev_In : forall e l, memev e l = true <-> In e l.
+Proof.
+  intros e l. unfold memev. rewrite existsb_exists. split.
+  - intros [y [Hy E]]. apply mevent_eqb_eq in E. subst. exact Hy.
+  - intros H. exists e. split; [exact H | apply mevent_eqb_eq; reflexivity].
+Qed.
+
+Lemma nodup_ev_NoDup : forall l, nodup_ev l = true -> NoDup l.
+Proof.
+  induction l as [|x l IH]; intros H; [constructor|]. cbn in H. apply andb_true_iff in H. destruct H as [H1 H2].
+  constructor; [|apply IH; exact H2]. intros X. apply memev_In in X. rewrite X in H1. discriminate H1.
+Qed.
+
+Lemma read_first_sound : forall ev seen, read_first seen ev = true ->
+  forall e1 i e3, ev = e1 ++ Write i :: e3 -> In i seen \/ In (Read i) e1.
+Proof.
+  induction ev as [|[k|k] r IH]; intros seen H e1 i e3 E.
+  - destruct e1; discriminate E.
+  - destruct e1 as [|x e1]; [discriminate E|]. cbn in E. injection E as <- E. cbn [read_first] in H.
+    destruct (IH (k :: seen) H e1 i e3 E) as [[->|D]|D]; [right; left; reflexivity | left; exact D | right; right; exact D].
+  - cbn [read_first] in H. apply andb_true_iff in H. destruct H as [H1 H2].
+    destruct e1 as [|x e1]; cbn in E.
+    + injection E as <- _. left. apply mem_In. exact H1.
+    + injection E as <- E. destruct (IH seen H2 e1 i e3 E) as [D|D]; [left; exact D | right; right; exact D].
+Qed.
+
+Lemma wf_interleavingb_sound : forall steps ev, wf_interleavingb steps ev = true -> wf_interleaving steps ev.
+Proof.
+  intros steps ev H. unfold wf_interleavingb in H.
+  apply andb_true_iff in H. destruct H as [H H4]. apply andb_true_iff in H. destruct H as [H H3].
+  apply andb_true_iff in H. destruct H as [H1 H2]. rewrite forallb_forall in H2, H3.
+  repeat split.
+  - apply nodup_ev_NoDup. exact H1.
+  - intros X. apply mem_In. exact (H3 (Read i) X).
+  - intros X. specialize (H2 i X). apply andb_true_iff in H2. apply memev_In. apply H2.
+  - intros X. apply mem_In. exact (H3 (Write i) X).
+  - intros X. specialize (H2 i X). apply andb_true_iff in H2. apply memev_In. apply H2.
+  - intros e1 i e3 E. destruct (read_first_sound ev [] H4 e1 i e3 E) as [[]|D]. exact D.
+Qed.
+
+Lemma scheduled_from_sound : forall before ids ev written, scheduled_from before ids written ev = true ->
+  forall i j e1 e3, before i j = true -> In i ids -> ev = e1 ++ Read j :: e3 -> In i written \/ In (Write i) e1.
+Proof.
+  intros before ids. induction ev as [|[k|k] r IH]; intros written H i j e1 e3 B Hi E.
+  - destruct e1; discriminate E.
+  - cbn [scheduled_from] in H. apply andb_true_iff in H. destruct H as [H1 H2].
+    destruct e1 as [|x e1]; cbn in E.
+    + injection E as <- _. rewrite forallb_forall in H1. specialize (H1 i Hi). rewrite B in H1. cbn in H1.
+      left. apply mem_In. exact H1.
+    + injection E as <- E. destruct (IH written H2 i j e1 e3 B Hi E) as [D|D]; [left; exact D | right; right; exact D].
+  - cbn [scheduled_from] in H. destruct e1 as [|x e1]; [discriminate E|]. cbn in E. injection E as <- E.
+    destruct (IH (k :: written) H i j e1 e3 B Hi E) as [[->|D]|D];
+      [right; left; reflexivity | left; exact D | right; right; exact D].
+Qed.
+
+Lemma scheduledb_sound : forall before steps ev, scheduledb before steps ev = true -> scheduled before steps ev.
+Proof.
+  intros before steps ev H i j e1 e3 B Hi E.
+  destruct (scheduled_from_sound before (map fst steps) ev [] H i j e1 e3 B Hi E) as [[]|D]. exact D.
+Qed.
+
+Lemma respectsb_sound : forall before l, respectsb before l = true -> respects before l.
+Proof.
+  intros before. induction l as [|x l IH]; intros H; [exact I|]. cbn in H. apply andb_true_iff in H. destruct H as [H1 H2].
+  split; [|apply IH; exact H2]. intros y Hy. rewrite forallb_forall in H1. apply negb_true_iff. exact (H1 y Hy).
+Qed.
+
+Lemma dependent_orderedb_sound : forall before l, dependent_orderedb before l = true -> dependent_ordered before l.
+Proof.
+  intros before l H x y Hx Hy Hne Hdep. unfold dependent_orderedb in H. rewrite forallb_forall in H.
+  specialize (H x Hx). rewrite forallb_forall in H. specialize (H y Hy).
+  rewrite Hdep in H. apply Nat.eqb_neq in Hne. rewrite Hne in H. cbn in H. apply orb_true_iff in H. exact H.
+Qed.
+
+(* ------------------------------------------------------------------ [3d] the lost update *)
+Definition lu_d1 : fdef := {| fname := 1; inputs := [0]; c0 := 0%Z; coefs := [1%Z] |}.
+Definition lu_d2 : fdef := {| fname := 2; inputs := [0]; c0 := 0%Z; coefs := [2%Z] |}.
+Definition lu_a1 : action := ACalc 0 [lu_d1].
+Definition lu_a2 : action := ACalc 0 [lu_d2].
+Definition lu_steps : list istep := [(1, lu_a1); (2, lu_a2)].
+Definition lu_store : store := [(0, [(0, [Some 5%Z; Some 7%Z])])].
+Definition lu_ev : list mevent := [Read 1; Read 2; Write 1; Write 2].
+Definition has_col (o : outcome) (obj f : nat) : bool :=
+  match o with
+  | Ok s => match get_obj s obj with Some t => match lookup t f with Some _ => true | None => false end | None => false end
+  | _ => false
+  end.
+
+(* two DEPENDENT steps on one object, both read, then both write: the column written by the first is lost, although
+   both sequential orders have it *)
+Lemma lost_update_refuted_l :
+  wf_interleaving lu_steps lu_ev
+  /\ independent lu_a1 lu_a2 = false
+  /\ has_col (exec 2 lu_store [lu_a1; lu_a2]) 0 1 = true /\ has_col (exec 2 lu_store [lu_a1; lu_a2]) 0 2 = true
+  /\ has_col (exec 2 lu_store [lu_a2; lu_a1]) 0 1 = true /\ has_col (exec 2 lu_store [lu_a2; lu_a1]) 0 2 = true
+  /\ has_col (mrun 2 lu_steps lu_store [] lu_ev) 0 2 = true
+  /\ has_col (mrun 2 lu_steps lu_store [] lu_ev) 0 1 = false.
+Proof.
+  split; [apply wf_interleavingb_sound; vm_compute; reflexivity | vm_compute; repeat split].
+Qed.
+
+(* hence the interleaving agrees with NO sequential order of the two steps *)
+Lemma lost_update_no_order_l : forall l, Permutation (map snd lu_steps) l ->
+  ~ outcome_eq (mrun 2 lu_steps lu_store [] lu_ev) (exec 2 lu_store l).
+Proof.
+  intros l HP. assert (Hl : l = [lu_a1; lu_a2] \/ l = [lu_a2; lu_a1]).
+  { cbn in HP. pose proof (Permutation_length HP) as HL.
+    destruct l as [|x [|y [|z l]]]; try discriminate HL.
+    assert (Hx : In x [lu_a1; lu_a2]) by (apply (Permutation_in x (Permutation_sym HP)); left; reflexivity).
+    assert (Hy : In y [lu_a1; lu_a2]) by (apply (Permutation_in y (Permutation_sym HP)); right; left; reflexivity).
+    assert (H1 : In lu_a1 [x; y]) by (apply (Permutation_in lu_a1 HP); left; reflexivity).
+    assert (H2 : In lu_a2 [x; y]) by (apply (Permutation_in lu_a2 HP); right; left; reflexivity).
+    assert (Hd : lu_a1 <> lu_a2) by discriminate.
+    destruct Hx as [<-|[<-|[]]], Hy as [<-|[<-|[]]]; auto; exfalso.
+    - destruct H2 as [H2|[H2|[]]]; apply Hd; exact H2.
+    - destruct H1 as [H1|[H1|[]]]; apply Hd; symmetry; exact H1. }
+  intros E.
+  assert (C : has_col (mrun 2 lu_steps lu_store [] lu_ev) 0 1 = has_col (exec 2 lu_store l) 0 1).
+  { unfold has_col. destruct (mrun 2 lu_steps lu_store [] lu_ev) as [s1| |], (exec 2 lu_store l) as [s2| |];
+      cbn in E; try contradiction; try reflexivity. rewrite (E 0). reflexivity. }
+  destruct Hl as [-> | ->]; vm_compute in C; discriminate C.
+Qed.
